@@ -204,7 +204,7 @@ func CmdCheck(args []string) int {
 		if !blockHasProp(b, *prop) {
 			continue
 		}
-		if b.Trusted {
+		if b.Trusted || b.Abstract {
 			trusted = append(trusted, b.Name)
 			continue
 		}
